@@ -1,1 +1,213 @@
-/- C13 — property theorems (stub: not built yet). -/
+/-
+C13 — Rate change scales time uniformly, composes, and survives a write.
+Property theorems about the executable model `Reamber/Model/Rate.lean` (Map.rate through Map.Stacker, MapSet.rate,
+OsuMap.rate, SMMapSet.rate), stated against `Reamber/Spec/Rate.lean`.  The correspondence check
+(harness/props/c13.py) ties the model to the code on every run and evaluates the same `setScalesB` on the
+implementation's output.
+-/
+import Reamber.Lemmas.RateStack
+import Reamber.Lemmas.RateLaws
+import Reamber.Generated.RateSchema
+
+namespace Reamber.Rate
+
+/-! ## lists: `Map.rate` through the stacker = one declarative pass -/
+
+/-- **rate_scales (lists)**: for the lists of any map (all three columns present somewhere, numeric where present,
+well-formed frames) and any `r ≠ 0`, `Map.rate` — concat, three column assignments each followed by `_update` —
+returns every list with every `offset` and `length` divided by `r`, every `bpm` multiplied by `r`, every other cell,
+the columns, the number and the order of rows unchanged.  Lists with no rows are covered (no hypothesis on sizes). -/
+theorem rateLists_scales (r : Rat) (fs : List Frame) (hok : listsOk fs = true) (hr : r ≠ 0) :
+    rateLists r fs = .ok (fs.map (scaleFrame r)) := by
+  simp only [listsOk, Bool.and_eq_true, List.all_eq_true] at hok
+  obtain ⟨⟨⟨⟨hwf, hnum⟩, ho⟩, hb⟩, hl⟩ := hok
+  have num : ∀ c, c ∈ ["offset", "bpm", "length"] → ∀ f ∈ fs, ∀ row ∈ f.rows, (lookupCell f.cols row c).numeric = true := by
+    intro c hc f hf row hrow
+    have := hnum f hf
+    simp only [Frame.numericCols, List.all_eq_true] at this
+    exact this c hc _ (by simp only [Frame.col, List.mem_map]; exact ⟨row, hrow, rfl⟩)
+  obtain ⟨s1, e1, st1, _⟩ := (Stage.init fs).step "offset" (Cell.div r) (hasCol_mem_union fs _ ho)
+    (fun f hf row hrow => num "offset" (by simp) f hf row hrow) hwf
+  obtain ⟨s2, e2, st2, _⟩ := st1.step "bpm" (Cell.mul r) (hasCol_mem_union fs _ hb)
+    (fun f hf row hrow => by simpa using num "bpm" (by simp) f hf row hrow) hwf
+  obtain ⟨s3, e3, _, u3⟩ := st2.step "length" (Cell.div r) (hasCol_mem_union fs _ hl)
+    (fun f hf row hrow => by simpa using num "length" (by simp) f hf row hrow) hwf
+  unfold rateLists
+  simp only [hr, if_false, e1, e2, e3, bind, Except.bind, pure, Except.pure]
+  rw [u3]
+  congr 1
+  apply List.map_congr_left
+  intro f _
+  simp only [scaleFrame]
+  congr 1
+  apply List.map_congr_left
+  intro row _
+  rw [scaleRow_eq_mapAll]
+  apply mapAll_congr
+  intro k v
+  rw [← rateFn_eq_scaleCell]
+  unfold rateFn
+  by_cases h1 : k = "offset" <;> by_cases h2 : k = "bpm" <;> by_cases h3 : k = "length" <;> simp [h1, h2, h3]
+
+/-! ## tie to the source (re-checked whenever the generated schema changes) -/
+
+open Generated.RateSchema in
+/-- What model and specification assume about the source holds for the schema the translator read from it:
+every game's map has an `offset`, a `bpm` and a `length` column somewhere (so `stack.offset/bpm/length` never raise
+KeyError, also on empty lists); every column of every list is classified (time / duration / tempo / other) — a new
+column breaks this proof until it is classified; the osu sample events have `offset` and neither `length` nor `bpm`;
+`Map.Stacker._props` exposes the three columns; every file-level field of `OsuMap` and `SMMapSet` is classified, the
+time-like ones being exactly the ones the model scales; and exactly `Map`, `MapSet`, `OsuMap`, `SMMapSet` define
+`rate` (the model's dispatch). -/
+theorem schema_tie :
+    (mapLists.all fun g => ["offset", "bpm", "length"].all fun c => g.2.any fun l => l.2.contains c) = true ∧
+    (mapLists.all fun g => g.2.all fun l => l.2.all fun c =>
+        (timeCols ++ durCols ++ bpmCols ++ otherCols).contains c) = true ∧
+    (mapLists.map (·.1)) = ["base", "osu", "qua", "sm", "bms", "o2j"] ∧
+    (osuSampleCols.contains "offset" && !osuSampleCols.contains "length" && !osuSampleCols.contains "bpm" &&
+        osuSampleCols.all fun c => (timeCols ++ otherCols).contains c) = true ∧
+    (["offset", "bpm", "length"].all fun c => stackerProps.contains c) = true ∧
+    osuMapFields.filter (fun f => !osuOtherFields.contains f) = osuTimeFields ∧
+    smSetFields.filter (fun f => !smOtherFields.contains f) = smTimeFields ∧
+    rateOverrides = ["Map", "MapSet", "OsuMap", "SMMapSet"] := by decide +kernel
+
+/-! ## one map, one map set -/
+
+/-- `samples.offset /= by` on the osu sample events is the declarative scaling of that list -/
+theorem divCol_samples (r : Rat) (sm : Frame) (h : samplesOk sm = true) :
+    sm.divCol "offset" r = .ok (scaleFrame r sm) := by
+  simp only [samplesOk, Bool.and_eq_true, Bool.not_eq_true', List.contains_eq_mem, decide_eq_true_eq,
+    decide_eq_false_iff_not] at h
+  obtain ⟨⟨⟨⟨_, ho⟩, hn⟩, hl⟩, hb⟩ := h
+  have hc : sm.arithCheck "offset" = .ok () := by
+    unfold Frame.arithCheck
+    simp [ho, hn]
+  simp only [Frame.divCol, hc, bind, Except.bind, Frame.mapCol, scaleFrame]
+  congr 2
+  apply List.map_congr_left
+  intro row _
+  exact mapAt_offset_eq_scaleRow r sm.cols row hl hb
+
+/-- **rate_scales (one map)**: `m.rate(r)` of any game's map class = the declarative result: every list scaled,
+for osu also the sample events and the preview point; every other field (`extra`) unchanged. -/
+theorem rateChart_scales (g : Game) (r : Rat) (c : Chart) (hok : chartOk g c = true) (hr : r ≠ 0) :
+    rateChart g r c = .ok (scaleChart g r c) := by
+  simp only [chartOk, Bool.and_eq_true] at hok
+  obtain ⟨hl, hx⟩ := hok
+  unfold rateChart
+  simp only [rateLists_scales r _ hl hr, bind, Except.bind, withFrames_map]
+  by_cases hg : g = .osu
+  · subst hg
+    simp only [if_true] at hx
+    cases hs : c.samples with
+    | none => simp [hs] at hx
+    | some sm =>
+      cases hp : c.preview with
+      | none => simp [hs, hp] at hx
+      | some pv =>
+        simp only [hs, hp] at hx
+        simp only [hs, hp, divCol_samples r sm hx, bind, Except.bind, scaleChart, if_true, Option.map_some]
+  · cases g <;> simp_all [scaleChart]
+
+/-- **rate_scales (map set)** — the full statement of the first sentence of C13 for the model: for every map set
+of every game (`k` = `MapSet`/`O2JMapSet` or `SMMapSet`, `g` = the class of its maps), any number of maps, any list
+sizes including empty hold / SV / sample lists, and every `r ≠ 0` (the property quantifies over `r > 0`):
+`rate r` returns the set in which every time and duration is divided by `r`, every tempo multiplied by `r`, the
+StepMania file offset and sample window divided by `r`, and all other fields are unchanged.  (The original is
+untouched because the model is a pure function; for the code that is `deepcopy`, observed by the harness.) -/
+theorem rateSet_scales (k : SetKind) (g : Game) (r : Rat) (s : MapSet) (hok : setOk k g s = true) (hr : r ≠ 0) :
+    rateSet k g r s = .ok (scaleSet k g r s) := by
+  simp only [setOk, Bool.and_eq_true, List.all_eq_true] at hok
+  obtain ⟨hm, hk⟩ := hok
+  unfold rateSet
+  rw [mapE_ok_map (rateChart g r) (scaleChart g r) s.maps (fun c hc => rateChart_scales g r c (hm c hc) hr)]
+  simp only [bind, Except.bind]
+  cases k with
+  | base => simp [scaleSet]
+  | sm =>
+    simp only [if_true, Bool.and_eq_true] at hk
+    obtain ⟨⟨ho, hs⟩, hl⟩ := hk
+    obtain ⟨o, ho⟩ := Option.isSome_iff_exists.mp ho
+    obtain ⟨ss, hs⟩ := Option.isSome_iff_exists.mp hs
+    obtain ⟨sl, hl⟩ := Option.isSome_iff_exists.mp hl
+    simp [hr, ho, hs, hl, divOpt, scaleSet, bind, Except.bind]
+
+/-- the specification the harness evaluates on the implementation's output accepts the model's output (ε = 0) -/
+theorem rateSet_spec (k : SetKind) (g : Game) (r : Rat) (s out : MapSet) (hok : setOk k g s = true) (hr : r ≠ 0)
+    (h : rateSet k g r s = .ok out) : setScalesB 0 k g r s out = true := by
+  rw [rateSet_scales k g r s hok hr] at h
+  cases h
+  exact closeSet_refl _
+
+/-- **rate_one**: rate 1 is the identity -/
+theorem rate_one (k : SetKind) (g : Game) (s : MapSet) (hok : setOk k g s = true) : rateSet k g 1 s = .ok s := by
+  rw [rateSet_scales k g 1 s hok (by decide), scaleSet_one]
+
+/-- **rate_comp**: rate `a` then rate `b` equals rate `a * b` (exact in ℚ) -/
+theorem rate_comp (k : SetKind) (g : Game) (a b : Rat) (s : MapSet) (hok : setOk k g s = true)
+    (ha : a ≠ 0) (hb : b ≠ 0) :
+    (rateSet k g a s >>= rateSet k g b) = rateSet k g (a * b) s := by
+  rw [rateSet_scales k g a s hok ha, rateSet_scales k g (a * b) s hok (mul_ne_zero ha hb)]
+  show rateSet k g b (scaleSet k g a s) = _
+  rw [rateSet_scales k g b _ (setOk_scale k g a s hok) hb, scaleSet_comp]
+
+/-- corollary: rating back by `1 / r` restores the chart -/
+theorem rate_inverse (k : SetKind) (g : Game) (r : Rat) (s : MapSet) (hok : setOk k g s = true) (hr : r ≠ 0) :
+    (rateSet k g r s >>= rateSet k g (1 / r)) = .ok s := by
+  rw [rate_comp k g r (1 / r) s hok hr (by simp [hr]), mul_one_div_cancel hr, rate_one k g s hok]
+
+/-! ## the error branches are not totalised away -/
+
+/-- a StepMania set whose `offset` is still `None` (never read, never set by a converter): `None /= by` raises
+TypeError — after the maps have been rated.  (Why `setOk` asks for `offset.isSome`.) -/
+theorem rateSet_sm_offset_none (g : Game) (r : Rat) (s : MapSet) (hm : ∀ c ∈ s.maps, chartOk g c = true) (hr : r ≠ 0)
+    (ho : s.offset = none) (hs : s.sampleStart.isSome = true) (hl : s.sampleLength.isSome = true) :
+    rateSet .sm g r s = .error .type := by
+  unfold rateSet
+  rw [mapE_ok_map (rateChart g r) (scaleChart g r) s.maps (fun c hc => rateChart_scales g r c (hm c hc) hr)]
+  obtain ⟨ss, hs⟩ := Option.isSome_iff_exists.mp hs
+  obtain ⟨sl, hl⟩ := Option.isSome_iff_exists.mp hl
+  simp [hr, ho, hs, hl, divOpt, bind, Except.bind]
+
+/-- no list with a `bpm` column: `stack.bpm` raises KeyError (why `listsOk` asks for the three columns; the generated
+schema shows every game's map has them) -/
+example : rateLists 2 [⟨["offset", "column"], [[.num 10, .num 1]]⟩, ⟨["offset", "length"], []⟩] = .error .key := by
+  decide +kernel
+
+/-- a string in a time column: TypeError -/
+example : rateLists 2 [⟨["offset", "bpm", "length"], [[.str "x", .num 1, .num 1]]⟩] = .error .type := by decide +kernel
+
+/-! ## non-vacuity: the hypotheses are satisfiable, on charts with empty hold / SV / sample lists too -/
+
+def exOsu : Chart :=
+  { lists := [("svs", ⟨["multiplier", "offset"], []⟩),
+              ("hits", ⟨["column", "offset", "hitsound_file"], [[.num 1, .num 1000, .str "a.wav"], [.num 2, .num 2000, .str ""]]⟩),
+              ("holds", ⟨["length", "column", "offset"], []⟩),
+              ("bpms", ⟨["kiai", "bpm", "metronome", "offset"], [[.bool false, .num 120, .num 4, .num 0]]⟩)],
+    samples := some ⟨["offset", "sample_file", "volume"], []⟩,
+    preview := some 1234,
+    extra := [("title", .str "t")] }
+
+def exSm : MapSet :=
+  { maps := [{ lists := [("stops", ⟨["length", "offset"], [[.num 300, .num 600]]⟩),
+                         ("hits", ⟨["column", "offset"], [[.num 0, .num 1500]]⟩),
+                         ("holds", ⟨["length", "column", "offset"], []⟩),
+                         ("bpms", ⟨["bpm", "metronome", "offset"], [[.num 120, .num 4, .num 1000]]⟩)],
+               samples := none, preview := none, extra := [] }],
+    offset := some 1000, sampleStart := some 20000, sampleLength := some 10000, extra := [("title", .str "s")] }
+
+example : chartOk .osu exOsu = true := by decide +kernel
+example : setOk .sm .sm exSm = true := by decide +kernel
+example : setOk .base .osu ⟨[exOsu, exOsu], none, none, none, []⟩ = true := by decide +kernel
+/-- … and the model really computes there (rate 2: times halved, tempo doubled, file offset and sample window halved) -/
+example : (rateSet .sm .sm 2 exSm).toOption = some
+    { maps := [{ lists := [("stops", ⟨["length", "offset"], [[.num 150, .num 300]]⟩),
+                           ("hits", ⟨["column", "offset"], [[.num 0, .num 750]]⟩),
+                           ("holds", ⟨["length", "column", "offset"], []⟩),
+                           ("bpms", ⟨["bpm", "metronome", "offset"], [[.num 240, .num 4, .num 500]]⟩)],
+                 samples := none, preview := none, extra := [] }],
+      offset := some 500, sampleStart := some 10000, sampleLength := some 5000, extra := [("title", .str "s")] } := by
+  decide +kernel
+example : ((rateChart .osu (3/2) exOsu).toOption.map (·.preview)) = some (some (2468/3)) := by decide +kernel
+
+end Reamber.Rate
